@@ -164,7 +164,7 @@ theorem extractVaryingRegion_exact (c : Choice) (t : Seq)
 end Dna.C04
 
 namespace Dna.C04
-open Dna Fold
+open Dna Fold C15
 
 /-- the hard restrictions collected from the constraints allow the word `t` -/
 abbrev Allowed := Fold.Allowed
@@ -178,7 +178,7 @@ theorem from_optimization_problem_exact (s : Seq) (rs : List Space.Restriction) 
     (hrs : ∀ r ∈ rs, RestrOK s.length r) (h : Space.fromRestrictions s rs = .ok sp) :
     ∀ t : Seq, t.length = s.length → (∀ ch ∈ t, ch ∈ Fold.DNA) →
       ((∀ c ∈ sp.choicesList, c.seg t ∈ c.variants) ↔ Allowed rs t) := by
-  obtain ⟨_, _, _, hacc⟩ := fromRestrictions_exact s rs sp hrs h
+  obtain ⟨_, _, _, _, hacc⟩ := fromRestrictions_exact s rs sp hrs h
   intro t ht hdna
   refine Iff.trans ?_ (hacc t ht hdna)
   constructor
@@ -191,9 +191,45 @@ theorem from_optimization_problem_exact (s : Seq) (rs : List Space.Restriction) 
 /-- the index of a constructed space is tiled by whole choices whose variants have their segment's length -/
 theorem from_optimization_problem_tiles (s : Seq) (rs : List Space.Restriction) (sp : Space)
     (hrs : ∀ r ∈ rs, RestrOK s.length r) (h : Space.fromRestrictions s rs = .ok sp) :
-    sp.index.length = s.length ∧ Blocks sp.index ∧ Full sp.index := by
-  obtain ⟨h1, h2, h3, _⟩ := fromRestrictions_exact s rs sp hrs h
-  exact ⟨h1, h2, h3⟩
+    sp.index.length = s.length ∧ Blocks sp.index ∧ Full sp.index ∧ VarsNodup sp.index := by
+  obtain ⟨h1, h2, h3, h4, _⟩ := fromRestrictions_exact s rs sp hrs h
+  exact ⟨h1, h2, h3, h4⟩
+
+/-- contiguous non-empty choices with well-sized, duplicate-free variants are `ChoicesFit` (the well-formedness that
+    the C15 / C12 theorems about `constrain_sequence`, `all_variants`, random mutations and the solver assume) -/
+theorem choicesFit_of_tiles (n a : Nat) (cl : List Choice) (hc : Merge.Contig a cl) (hs : Merge.stopOf a cl ≤ n)
+    (hp : ∀ c ∈ cl, c.start < c.stop ∧ (∀ v ∈ c.variants, v.length = c.stop - c.start) ∧ c.variants.Nodup) :
+    ChoicesFit n cl := by
+  induction cl generalizing a with
+  | nil => trivial
+  | cons c rest ih =>
+    obtain ⟨e1, e2, e3⟩ := hc
+    obtain ⟨p1, p2, p3⟩ := hp c (by simp)
+    have hge := Merge.contig_ge c.stop rest e3
+    simp only [Merge.stopOf] at hs
+    exact ⟨by omega, p1, p2, p3, fun r hr => (hge.2 r hr).1, ih c.stop e3 hs (fun x hx => hp x (by simp [hx]))⟩
+
+/-- **the space built by `from_optimization_problem` is well-formed**: its choices tile the sequence in order, each a
+    non-empty segment whose variants are pairwise distinct words of the segment's length.  This discharges the
+    hypothesis `ChoicesFit` (and `SpaceWF.fit` of C12) for every space the library constructs from restrictions inside
+    the sequence. -/
+theorem from_optimization_problem_fits (s : Seq) (rs : List Space.Restriction) (sp : Space)
+    (hrs : ∀ r ∈ rs, RestrOK s.length r) (h : Space.fromRestrictions s rs = .ok sp) :
+    ChoicesFit s.length sp.choicesList ∧ Merge.Contig 0 sp.choicesList ∧ Merge.stopOf 0 sp.choicesList = s.length := by
+  obtain ⟨hl, hB, hF, hN, _⟩ := fromRestrictions_exact s rs sp hrs h
+  obtain ⟨t1, t2, t3⟩ := choicesList_tiles sp hB hF
+  refine ⟨choicesFit_of_tiles s.length 0 _ t1 (by omega) ?_, t1, by omega⟩
+  intro c hc
+  obtain ⟨i, hi⟩ := List.getElem?_of_mem ((C15.mem_choicesList sp c).1 hc)
+  exact ⟨(t3 c hc).1, (t3 c hc).2.2, hN i c hi⟩
+
+/-- consequently the problem's constrained initial sequence lies in the constructed space for every random tape, with
+    no well-formedness hypothesis left -/
+theorem initial_sequence_in_constructed_space (s : Seq) (rs : List Space.Restriction) (sp : Space) (t t' : Tape) (r : Seq)
+    (hrs : ∀ r ∈ rs, RestrOK s.length r) (h : Space.fromRestrictions s rs = .ok sp)
+    (hc : sp.constrainSequence s t = .ok (r, t')) :
+    r.length = s.length ∧ ∀ c ∈ sp.choicesList, c.seg r ∈ c.variants :=
+  initial_sequence_in_space sp s t t' r (from_optimization_problem_fits s rs sp hrs h).1 hc
 
 /-- the construction cannot fail on restrictions inside the sequence … the two `crash` branches of the model
     (a `None` under a restriction, `merge_with` on an empty set) are unreachable: stated as what a successful step
